@@ -48,6 +48,14 @@ def judge_output(out, lang, assign, by_name, x_ends_in_token=True):
         if li['tail'] is None:
             st['trail_judged'] += 1
         if not stripped:
+            # a whitespace-only line is indentation and nothing else: it follows indent_with_tabs like any code line
+            if blank_indent and line:
+                st['blank_judged'] = st.get('blank_judged', 0) + 1
+                if iwt == 0 and b'\t' in line:
+                    v.append(('tab-in-indent|blank-line', 'line %d: tab in a whitespace-only line with indent_with_tabs=0: %r' % (k + 1, line[:40])))
+                elif iwt in (1, 2) and b' \t' in line:
+                    v.append(('space-before-tab|blank-line', 'line %d: a space precedes a tab in a whitespace-only line with indent_with_tabs=%d: %r' % (
+                        k + 1, iwt, line[:40])))
             continue
         lead = line[:len(line) - len(line.lstrip(b' \t'))]
         is_pp_first = li.get('pp_first', False) or stripped.startswith((b'__pragma', b'_Pragma'))
@@ -87,6 +95,85 @@ def judge_output(out, lang, assign, by_name, x_ends_in_token=True):
     return v, st
 
 
+PP_HOSTS = {
+    'c': ('C', b"""int f(int a)
+{
+   if (a) {
+      while (a) {
+#define LIMIT 10
+
+         a--;
+#if defined(X)
+
+         a++;
+#else
+
+         a += 2;
+#endif
+
+#pragma once_more
+
+         switch (a) {
+         case 1:
+#undef LIMIT
+
+            break;
+         }
+      }
+   }
+
+   return a;
+}
+"""),
+    'cs': ('CS', b"""class A {
+   int F(int a) {
+      if (a > 0) {
+         while (a > 1) {
+#region inner
+
+            a--;
+#if X
+
+            a++;
+#endif
+
+#endregion
+
+         }
+      }
+
+      return a;
+   }
+}
+"""),
+    'cpp': ('CPP', b"""namespace n {
+class K {
+public:
+   int f(int a) {
+      for (;;) {
+         if (a) {
+#ifdef Y
+
+            a--;
+#elif defined(Z)
+
+            a++;
+#endif
+
+#line 100
+
+            break;
+         }
+      }
+
+      return a;
+   }
+};
+}
+"""),
+}
+
+
 def load_input(spec):
     kind = spec[0]
     if kind == 'corpus':
@@ -110,7 +197,7 @@ def _case(t):
     if not usable(x) or spec[1] in ('cpp/align-330.cpp',):
         # align-330.cpp starts with a lone backslash line: whether its '#define' is a directive is read differently by uncrustify (C02-008)
         return dict(cid=cid, status='skipped')
-    if not tokoracle.well_lexed(lex.lex(NL.sub(b'\n', corpus.read(spec[1])), lang)):
+    if spec[0] != 'text' and not tokoracle.well_lexed(lex.lex(NL.sub(b'\n', corpus.read(spec[1])), lang)):
         return dict(cid=cid, status='input-not-well-lexed')
     if spec[0] == 'hostile':
         base = NL.sub(b'\n', corpus.read(spec[1]))
@@ -210,6 +297,17 @@ def check(ctx):
         a = tab_config(fr)
         a['indent_single_newlines'] = 'true'
         tasks.append(('isn:%d:%s' % (i, rel), ('hostile', rel, lang, 0), lang, a))
+    # directives inside nested blocks followed by blank lines, under the whole tab grid with blank-line indentation on and off
+    for hname, (hlang, htext) in sorted(PP_HOSTS.items()):
+        for iwt in (0, 1, 2):
+            for ppt in (-1, 0, 1, 2):
+                for isn in ('true', 'false'):
+                    for ic in (2, 4, 8):
+                        for ots in (4, 8):
+                            for ppi in ('ignore', 'add'):
+                                a = {'indent_with_tabs': str(iwt), 'pp_indent_with_tabs': str(ppt), 'indent_single_newlines': isn, 'indent_columns': str(ic),
+                                     'output_tab_size': str(ots), 'pp_indent': ppi}
+                                tasks.append(('pphost:%s:%d:%d:%s:%d:%d:%s' % (hname, iwt, ppt, isn, ic, ots, ppi), ('text', htext), hlang, a))
     ctx.rule = ('case = corpus file (all languages), 70 % re-laid-out with hostile whitespace (leading space/tab mixes, trailing blanks, whitespace-only '
                 'lines, tabs between tokens; token stream checked unchanged by the independent lexer), formatted under tab/indent/align/pp/eof '
                 'option draws.  Every output line is classified by the independent lexer (inside comment/literal, directive, code) and judged: '
@@ -217,7 +315,7 @@ def check(ctx):
                 'free of space-before-tab with 1 or 2; directive lines by pp_indent_with_tabs; end of file by nl_end_of_file/_min.  '
                 'non-trivial = accepted case whose output differs from the input')
     seen = set()
-    tot = dict(lines=0, lead_judged=0, trail_judged=0, pp_judged=0, eof_judged=0)
+    tot = dict(lines=0, lead_judged=0, trail_judged=0, pp_judged=0, eof_judged=0, blank_judged=0)
     ok = []
     for r in pmap(_case, tasks):
         ctx.count('cases_' + r['cid'].split(':')[0])
@@ -228,7 +326,7 @@ def check(ctx):
         ctx.evaluations += 1
         ok.append(r)
         for k in tot:
-            tot[k] += r['stats'][k]
+            tot[k] += r['stats'].get(k, 0)
         if r['nontrivial']:
             ctx.nt(r['cid'])
         for kind, detail, small in r['viols']:
@@ -257,3 +355,4 @@ def check(ctx):
     ctx.require('observed_lead_judged', 40000)
     ctx.require('observed_pp_judged', 1000)
     ctx.require('observed_eof_judged', 500)
+    ctx.require('observed_blank_judged', 500)
